@@ -41,6 +41,27 @@ def apply(mut, dst):
             fil.write(txt.replace(old, new))
 
 
+def seeded_changes():
+    """Changes written by independent sub-agents, kept under /verif/seeded/<id>/."""
+    root = os.path.join(kernel.VERIF_DIR, 'seeded')
+    out = []
+    for sid in sorted(os.listdir(root)):
+        meta = os.path.join(root, sid, 'meta.json')
+        if os.path.exists(meta):
+            with open(meta, encoding='utf-8') as fil:
+                prop = json.load(fil)['property']
+            out.append({'id': 'seeded/' + sid, 'property': prop,
+                        'patch': os.path.join(root, sid, 'patch.diff')})
+    return out
+
+
+def apply_patch(mut, dst):
+    proc = subprocess.run(['git', 'apply', '--whitespace=nowarn', mut['patch']], cwd=dst,
+                          capture_output=True, text=True, check=False)
+    if proc.returncode != 0:
+        raise kernel.HarnessError(f'{mut["id"]}: patch does not apply: {proc.stderr[-300:]}')
+
+
 def run_check(prop, tier, dst, base, seed):
     env = dict(os.environ)
     env.update(VERIF_REPO=dst, VERIF_OUT=os.path.join(base, 'out'), VERIF_SEED=str(seed))
@@ -71,10 +92,13 @@ def main(argv):
         else:
             ids.append(a)
     todo = []
+    everything = list(MUTANTS) + seeded_changes()
     if not ids or 'all' in ids:
-        todo = list(MUTANTS)
+        todo = everything
+    elif ids == ['seeded']:
+        todo = seeded_changes()
     else:
-        todo = [m for m in MUTANTS if m['id'] in ids or m['property'] in ids]
+        todo = [m for m in everything if m['id'] in ids or m['property'] in ids]
     report, ok = [], True
     if not ids or 'all' in ids or 'clean' in ids:
         props = sorted({m['property'] for m in todo}) or sorted({m['property'] for m in MUTANTS})
@@ -92,7 +116,10 @@ def main(argv):
     for mut in todo:
         base, dst = make_copy(full=tests)
         try:
-            apply(mut, dst)
+            if 'patch' in mut:
+                apply_patch(mut, dst)
+            else:
+                apply(mut, dst)
             entry = {'mutant': mut['id'], 'property': mut['property']}
             if tests:
                 entry['tests_pass'], entry['tests_tail'] = run_tests(dst)
